@@ -11,6 +11,17 @@ It exists on the Python side only: the model line is the token without the form 
 converts the intended duration to ticks itself and never through `cashews.ttl`.  Bare backends (`facade=False`)
 take numbers only and always get the float.
 
+Clock resolution.  A configuration has a resolution `res` = ticks per second: 8 for the ordinary families, 2**20
+(`FINE`, ticks of about 0.95 us) for the `*_fine` configurations, whose histories write TTLs that are not a whole
+number of milliseconds (or of microseconds) and read inside the last millisecond before a deadline.  All instants and
+TTLs stay dyadic, so every float sum and comparison in the code under test is exact; the model works in ticks
+whatever they are worth, and only `get_expire` (whole seconds) needs the resolution: the driver is told it on the
+`case` line (Model/Fine.lean `getExpireR`).
+
+Container values.  `c:<n>` is the n-th entry of `CONTAINERS` (set, frozenset, list, dict, tuple, nested, empty
+ones): opaque payloads for the model (`plain` rewrites them to the tokens `t:<500+n>`), recognised on the way back
+by type *and* equality.
+
 Purge sweeps.  With the purge task on, the real `Memory._remove_expired` runs on the virtual loop next to the
 harness task.  The harness does not look at HOW the purge is implemented: the backend under test is a
 subclass of `Memory` whose `store` attribute is a `LoggedStore` (an `OrderedDict` that reports every mutation,
@@ -40,10 +51,22 @@ def kname(i: int) -> str:
     return KEYNAMES[i]
 
 
+# container payloads: what an application may well store; every read command has to hand them back as they are
+CONTAINERS = [
+    {1, 2}, set(), frozenset({1, 2}), frozenset(), [1, 2], [], {"a": 1}, {}, (1, 2), (), {"s": {1}}, [set()], ({1},), [[]],
+    {"k": []}, b"", "",
+]
+CBASE = 500
+
+
 def val_of(tok: str):
     if tok == "n":
         return None
     kind, x = tok.split(":")
+    if kind == "c":
+        return CONTAINERS[int(x)]
+    if kind == "t" and int(x) >= CBASE:
+        return CONTAINERS[int(x) - CBASE]
     if kind == "y":
         return f"y{x}".encode()  # a bytes payload: stored encoded (b"bytes:...") when a serializer is configured
     return int(x) if kind == "i" else f"t{x}"
@@ -62,6 +85,9 @@ def show_val(v) -> str:
         return f"t:{v[1:]}"
     if isinstance(v, bytes) and v.startswith(b"y") and v[1:].isdigit():
         return f"y:{int(v[1:])}"
+    for i, c in enumerate(CONTAINERS):
+        if type(v) is type(c) and v == c:
+            return f"t:{CBASE + i}"
     return f"?{type(v).__name__}:{v!r}"
 
 
@@ -71,7 +97,9 @@ FORMS_ANY = ("f", "td")
 FORMS_WHOLE = ("i", "s", "ss", "sn", "s4", "sU")
 FORMS = FORMS_ANY + FORMS_WHOLE
 _FORM = re.compile(r"/[A-Za-z0-9]+")
-HOUR, DAY = 8 * 3600, 8 * 86400         # in ticks
+_CVAL = re.compile(r"(?<![A-Za-z0-9])c:(\d+)")
+HOUR, DAY = 8 * 3600, 8 * 86400         # in ticks of 1/8 s
+FINE = 1 << 20                          # ticks per second of the `*_fine` configurations
 
 
 def dhms(seconds: int):
@@ -81,16 +109,18 @@ def dhms(seconds: int):
     return d, h, m, sec
 
 
-def spell(ticks: int, form: str):
-    """the duration of `ticks` eighths of a second as the Python object the caller would write.
-    A form that cannot express the value (a fraction of a second as int / string) falls back to the float."""
-    whole = ticks % 8 == 0
-    if form == "td":
+def spell(ticks: int, form: str, res: int = 8):
+    """the duration of `ticks` (1/res s each; res a power of two) as the Python object the caller would write.
+    A form that cannot express the value exactly (a fraction of a second as int / string, a fraction of a microsecond
+    as timedelta) falls back to the float, which is exact."""
+    whole = ticks % res == 0
+    if form == "td" and (ticks % res) * 1000000 % res == 0:
         # what `timedelta(...)` normalises to: (days, seconds, microseconds) - `.seconds` alone is NOT the duration
-        return timedelta(days=ticks // DAY, seconds=(ticks % DAY) // 8, microseconds=(ticks % 8) * 125000)
-    if form in ("", "f") or not whole:
-        return ticks / 8
-    n = ticks // 8
+        day = res * 86400
+        return timedelta(days=ticks // day, seconds=(ticks % day) // res, microseconds=(ticks % res) * 1000000 // res)
+    if form in ("", "f", "td") or not whole:
+        return ticks / res
+    n = ticks // res
     if form == "i":
         return n
     if form == "ss":
@@ -108,16 +138,16 @@ def spell(ticks: int, form: str):
     raise ValueError(f"unknown ttl form {form!r}")
 
 
-def ttl_of(tok: str):
+def ttl_of(tok: str, res: int = 8):
     if tok == "-":
         return None
     ticks, _, form = tok.partition("/")
-    return spell(int(ticks), form)
+    return spell(int(ticks), form, res)
 
 
 def plain(line: str) -> str:
-    """the model's view of a protocol line: TTLs in ticks, spellings dropped"""
-    return _FORM.sub("", line)
+    """the model's view of a protocol line: TTLs in ticks, spellings dropped, container values as opaque tokens"""
+    return _CVAL.sub(lambda m: f"t:{CBASE + int(m.group(1))}", _FORM.sub("", line))
 
 
 def ttl_tokens(line: str) -> list[str]:
@@ -128,10 +158,13 @@ def ttl_tokens(line: str) -> list[str]:
     return [w[at]] if at is not None and at < len(w) and w[at] != "-" else []
 
 
-def describe(line: str) -> str | None:
-    """how the TTL of a line reaches the facade, for replay files: e.g. `expire=datetime.timedelta(days=1, seconds=90)`"""
+def describe(line: str, res: int = 8) -> str | None:
+    """how the TTL / the container values of a line reach the code, for replay files: e.g.
+    `ttl 691920/td -> datetime.timedelta(days=1, seconds=90)`, `c:0 -> {1, 2}`"""
     toks = ttl_tokens(line)
-    return f"ttl {toks[0]} -> {ttl_of(toks[0])!r}" if toks and "/" in toks[0] else None
+    out = [f"ttl {toks[0]} -> {ttl_of(toks[0], res)!r}"] if toks and ("/" in toks[0] or res != 8) else []
+    out += [f"c:{n} -> {CONTAINERS[int(n)]!r}" for n in dict.fromkeys(_CVAL.findall(line))]
+    return ", ".join(out) or None
 
 
 CONFIGS = {
@@ -142,7 +175,16 @@ CONFIGS = {
     "facade_purge": dict(facade=True, purge=8, url="vmem://?size={size}&check_interval=1"),
     "facade_secret": dict(facade=True, purge=0, url="vmem://?size={size}&check_interval=0&secret=s3cr3t&digestmod=sha1"),
     "facade_pickle": dict(facade=True, purge=0, url="vmem://?size={size}&check_interval=0&pickle_type=default"),
+    # ticks of 2**-20 s (see "Clock resolution" above); purge interval 1/1024 s = 1024 ticks
+    "raw_fine": dict(facade=False, purge=0, url=None, res=FINE),
+    "raw_purge_fine": dict(facade=False, purge=1024, url=None, res=FINE),
+    "facade_fine": dict(facade=True, purge=0, url="vmem://?size={size}&check_interval=0", res=FINE),
+    "facade_secret_fine": dict(facade=True, purge=0, url="vmem://?size={size}&check_interval=0&secret=s3cr3t&digestmod=sha1", res=FINE),
 }
+
+
+def res_of(cfg: str) -> int:
+    return CONFIGS[cfg].get("res", 8)
 
 
 # ------------------------------------------------------------------------------------------------
@@ -255,6 +297,7 @@ class Runner:
 
     def __init__(self, cfg: str, size: int):
         self.cfg = CONFIGS[cfg]
+        self.res = self.cfg.get("res", 8)       # ticks per second
         self.size = size
         self.stats: dict[str, int] = {}
         self.backend = None
@@ -272,17 +315,23 @@ class Runner:
 
     def _ttl(self, tok: str):
         """the TTL argument of a command; bumps the spelling statistics (keys `spelling:*`, not interesting states)"""
+        if tok != "-" and self.res != 8:
+            t = int(tok.partition("/")[0]) / self.res
+            if t and t * 1000 != int(t * 1000):
+                self._bump("write_with_a_ttl_that_is_not_a_whole_number_of_milliseconds")
+            if t and t * 1000000 != int(t * 1000000):
+                self._bump("write_with_a_ttl_that_is_not_a_whole_number_of_microseconds")
         if not self.cfg["facade"]:
-            return ttl_of(plain(tok))       # a bare backend takes numbers only
+            return ttl_of(_FORM.sub("", tok), self.res)       # a bare backend takes numbers only
         if "/" in tok:
             ticks, _, form = tok.partition("/")
-            obj = ttl_of(tok)
+            obj = ttl_of(tok, self.res)
             kind = type(obj).__name__ + ("_with_days" if isinstance(obj, timedelta) and obj.days else "")
             self._bump(f"spelling:{kind}")
-            if int(ticks) >= HOUR:
+            if int(ticks) >= 3600 * self.res:
                 self._bump("spelling:an hour or more")
             return obj
-        return ttl_of(tok)
+        return ttl_of(tok, self.res)
 
     def _note_long(self, w: list[str]):
         """remember which keys hold a deadline an hour or more ahead right after a write (read off the store; only
@@ -337,7 +386,7 @@ class Runner:
             await cache.init()
             self.api = cache
         else:
-            backend = cls(size=self.size, check_interval=self.cfg["purge"] / 8)
+            backend = cls(size=self.size, check_interval=self.cfg["purge"] / self.res)
             self.backend = backend
             _ACTIVE = self
             await backend.init()
@@ -363,6 +412,9 @@ class Runner:
                 self._bump(f"{op}{'_' + w[4] if op == 'set' else ''}_on_expired_unpurged")
             if self._at_deadline(k):
                 self._bump(f"{op}_exactly_at_deadline")
+            ent = self.backend.store.get(k)
+            if ent and ent[0] is not None and 0 < ent[0] - CLOCK.t < 0.001:
+                self._bump("command_within_the_last_millisecond_before_a_deadline")
             if k in self._long and self._expired_unpurged(k):
                 self._bump("command_at_or_after_a_deadline_of_hours_or_days")
             elif k in self._long and self.backend.store.get(k) and CLOCK.t - self._long[k][1] >= 3600:
@@ -379,10 +431,16 @@ class Runner:
             r = await api.set_many(pairs, expire=self._ttl(w[1]))
             return "U" if r is None else f"?{r!r}"
         if op == "get":
-            return "v=" + show_val(await api.get(kname(int(w[1])), default=SENT))
+            out = show_val(await api.get(kname(int(w[1])), default=SENT))
+            if out.startswith("t:") and int(out[2:]) >= CBASE:
+                self._bump("get_returned_a_container_value")
+            return "v=" + out
         if op == "getmany":
             r = await api.get_many(*[kname(int(x)) for x in w[1:]], default=SENT)
-            return "vs=" + ",".join(show_val(v) for v in r)
+            outs = [show_val(v) for v in r]
+            if any(o.startswith("t:") and int(o[2:]) >= CBASE for o in outs):
+                self._bump("getmany_returned_a_container_value")
+            return "vs=" + ",".join(outs)
         if op == "exists":
             r = await api.exists(kname(int(w[1])))
             return "T" if r is True else "F" if r is False else f"?{r!r}"
@@ -435,12 +493,12 @@ class Runner:
 
     async def _advance(self, line: str, dt: int):
         if not self.cfg["purge"]:
-            CLOCK.advance(dt)
+            CLOCK.t += dt / self.res
             await self._rec(line, "U")
             return
         start = CLOCK.t
         last = self._current_snap()
-        await vtime.vsleep(dt)
+        await asyncio.sleep(dt / self.res if dt > 0 else 0)
         cur = start
         for g in self._take_groups():
             if g["t"] == start and g["t"] == self._sweep_t and not self._cmd_since_sweep:
@@ -449,7 +507,7 @@ class Runner:
                 self._bump("sweep_continued_after_idle_yield")
                 last = g["snap"]
                 continue
-            await self._rec(f"adv {round((g['t'] - cur) * 8)}", "U", snap=last, now=g["t"])
+            await self._rec(f"adv {round((g['t'] - cur) * self.res)}", "U", snap=last, now=g["t"])
             if g["t"] == self._cmd_t:
                 self._bump("sweep_at_the_instant_of_a_command_after_it")
             await self._sweep(g)
@@ -458,12 +516,12 @@ class Runner:
             # the store differs from what the observed mutations left: something changed it behind the
             # observation.  Still translated faithfully: an unattributed sweep at the end of the advance.
             self._bump("unattributed_store_change")
-            await self._rec(f"adv {round((CLOCK.t - cur) * 8)}", "U", snap=last, now=CLOCK.t)
+            await self._rec(f"adv {round((CLOCK.t - cur) * self.res)}", "U", snap=last, now=CLOCK.t)
             await self._sweep({"t": CLOCK.t, "snap": self._current_snap()})
             cur = CLOCK.t
-        await self._rec(f"adv {round((CLOCK.t - cur) * 8)}", "U")
-        if round((CLOCK.t - start) * 8) != dt:
-            await self._rec("?clock", f"slept {dt} ticks but clock moved {(CLOCK.t - start) * 8}")
+        await self._rec(f"adv {round((CLOCK.t - cur) * self.res)}", "U")
+        if round((CLOCK.t - start) * self.res) != dt:
+            await self._rec("?clock", f"slept {dt} ticks but clock moved {(CLOCK.t - start) * self.res}")
 
     async def _history(self, ops: list[str]):
         global _ACTIVE
@@ -531,15 +589,25 @@ BIG_TTLS = [str(x) for x in (
     8 * 90, 8 * 600, HOUR, 2 * HOUR + 8 * 61, 12 * HOUR, DAY - 8, DAY, DAY, DAY + 8, DAY + 8 * 90, DAY + 8 * 330, DAY + 4,
     36 * HOUR, 2 * DAY, 2 * DAY, 2 * DAY + HOUR + 1, 3 * DAY, 7 * DAY, 30 * DAY + 8 * 5)]
 SPELL_FORMS = ["i", "f", "td", "td", "td", "s", "s", "ss", "sn", "s4", "sU"]
+CONTAINER_VALS = [f"c:{i}" for i in range(len(CONTAINERS))]
+
+# alphabets of the `*_fine` configurations, in ticks of 2**-20 s: TTLs of one and two ticks (below a microsecond),
+# around half a millisecond, a tick under / over 1, 2, 5, 10 ms (1 ms = 1048.576 ticks), 1/1024 s, 1/64 s (a whole
+# number of microseconds: spellable as timedelta), a tick under / exactly / over a second, two seconds and a bit
+FINE_TTLS = ["-", "0", "1", "2", "500", "1000", "1024", "1048", "1049", "1500", "2097", "2098", "3072", "5243", "10485", "10486",
+             str(FINE // 64), str(FINE // 2), str(FINE - 1), str(FINE), str(FINE + 1), str(2 * FINE + 10486)]
+FINE_ADVS = [0, 1, 1, 2, 500, 1000, 1023, 1024, 1048, 1049, 2000, 4096, FINE // 64, FINE // 2, FINE]
 
 
 def gen_history(rng, nkeys: int, maxlen: int, weights: dict | None = None, advs=None, ttls=None,
-                forms=None, bigttls=None, maxadv: int | None = None) -> list[str]:
+                forms=None, bigttls=None, maxadv: int | None = None, vals=None, chase: bool | None = None,
+                res: int = 8) -> list[str]:
     """`forms`: spell every TTL in one of these forms (facade configurations only); `bigttls`: extra alphabet of long
     TTLs - then half of the time advances aim at a pending deadline (8 ticks / 1 tick before, exactly at, 1 / 8 ticks
     after it; the generator keeps its own account of `now` and of the deadlines it asked for), never by more than
     `maxadv` ticks.  With all three left out the random stream is the one older replays were made from."""
-    ADVS, TTLS = advs or globals()["ADVS"], ttls or globals()["TTLS"]
+    ADVS, TTLS, VALS = advs or globals()["ADVS"], ttls or globals()["TTLS"], vals or globals()["VALS"]
+    chase = bool(bigttls) if chase is None else chase       # aim time advances at pending deadlines
     n = rng.randint(1, maxlen)
     ops = []
     k = lambda: str(rng.randrange(nkeys))
@@ -554,17 +622,17 @@ def gen_history(rng, nkeys: int, maxlen: int, weights: dict | None = None, advs=
             if int(tok) > 0:
                 deadlines.append(now + int(tok))
             if forms:
-                ok = [f for f in forms if (int(tok) % 8 == 0 or f in FORMS_ANY) and (not numeric or f in ("i", "f"))] or ["f"]
+                ok = [f for f in forms if (int(tok) % res == 0 or f in FORMS_ANY) and (not numeric or f in ("i", "f"))] or ["f"]
                 tok += "/" + rng.choice(ok)
         return tok
 
     def adv():
         nonlocal now
         dt = None
-        if bigttls and rng.random() < 0.5:
+        if chase and rng.random() < 0.5:
             ahead = [d for d in deadlines if d > now and (maxadv is None or d - now <= maxadv)]
             if ahead:
-                dt = rng.choice(ahead) + rng.choice([-8, -1, 0, 0, 1, 8]) - now
+                dt = rng.choice(ahead) + rng.choice([-8, -1, 0, 0, 1, 8] + ([-1000, -300, -40] if res != 8 else [])) - now
                 if dt <= 0 or (maxadv is not None and dt > maxadv):
                     dt = None
         if dt is None:
